@@ -11,6 +11,7 @@ package c15
 import (
 	"context"
 	"fmt"
+	"sort"
 	"strings"
 	"testing"
 	"testing/synctest"
@@ -52,12 +53,17 @@ func coqTzTableTI(tis []configTI, u int64) string {
 
 func genSysCase(r *vh.Rand) Case {
 	for {
-		named, its, names, owners := genNamedN(r, r.Range(1, 3), vh.Pick(r, []int{1, 1, 2}))
+		subMinute := r.Chance(3, 5)
+		nSets, maxFields := r.Range(1, 3), vh.Pick(r, []int{1, 1, 2})
+		if subMinute {
+			nSets, maxFields = r.Range(1, 2), 1
+		}
+		named, its, names, owners := genNamedN(r, nSets, maxFields)
 		var mute, active []string
-		if r.Chance(1, 3) {
+		if r.Chance(1, 3) && !(subMinute && r.Chance(2, 3)) {
 			mute = pickNames(r, names, false)
 		}
-		if r.Chance(1, 3) {
+		if r.Chance(1, 3) && !(subMinute && r.Chance(2, 3)) {
 			active = pickNames(r, names, false)
 		}
 		// flushes straddle an edge of an interval that the route actually uses
@@ -77,20 +83,33 @@ func genSysCase(r *vh.Rand) Case {
 				active = append(active, owners[j])
 			}
 		}
-		gi := vh.Pick(r, []int64{60, 60, 60, 300, 1800, 3600, 6 * 3600, 86400})
-		gw := vh.Pick(r, []int64{0, 1, 30, 60})
-		k := r.Range(6, 16)
+		in := SysIn{}
+		if subMinute {
+			// sub-minute schedule: one long-lived pipeline asked again within less than a minute
+			in.GI = vh.Pick(r, []int64{30, 30, 60, 90})
+			in.GW = vh.Pick(r, []int64{0, 1, 30})
+			in.D = vh.Pick(r, []int64{0, 40, 40, 10, 25})
+			in.K = r.Range(5, 9)
+		} else {
+			in.GI = vh.Pick(r, []int64{60, 60, 300, 1800, 3600, 6 * 3600, 86400})
+			in.GW = vh.Pick(r, []int64{0, 1, 30, 60})
+			in.K = r.Range(6, 16)
+		}
 		edge := genEdge(r, its[j]).Unix
 		edge -= edge % 60
-		start := edge - gw - int64(k/2)*gi
-		if start < y2000+86400 || edge > 4102444800 {
+		// the middle flush of the first group lands within a minute before/after the edge, not minute-aligned
+		in.Start = edge - in.GW - int64(in.K/2)*in.GI + vh.Pick(r, []int64{0, 0, -30, -20, -50, 10, -1, -59})
+		if in.Start < y2000+86400 || edge > 4102444800 {
+			continue
+		}
+		if evs := in.events(); !eventsSeparated(evs) {
 			continue
 		}
 		// deprecated top-level mute_time_intervals for the first named set, time_intervals for the rest
 		parts := strings.Split(named, "- name: ")
 		var sb strings.Builder
 		sb.WriteString("route:\n  receiver: default\n  group_by: [alertname]\n  routes:\n    - receiver: team\n      matchers: ['team=\"x\"']\n")
-		fmt.Fprintf(&sb, "      group_wait: %ds\n      group_interval: %ds\n      repeat_interval: 1s\n", gw, gi)
+		fmt.Fprintf(&sb, "      group_wait: %ds\n      group_interval: %ds\n      repeat_interval: 1s\n", in.GW, in.GI)
 		if mute != nil {
 			fmt.Fprintf(&sb, "      mute_time_intervals: [%s]\n", strings.Join(mute, ", "))
 		}
@@ -105,7 +124,7 @@ func genSysCase(r *vh.Rand) Case {
 				sb.WriteString("- name: " + p)
 			}
 		}
-		return Case{Kind: "sys", YAML: sb.String(), Sys: &SysIn{Start: start, GW: gw, GI: gi, K: k}}
+		return Case{Kind: "sys", YAML: sb.String(), Sys: &in}
 	}
 }
 
@@ -242,19 +261,58 @@ func (rn *runner) cfg(c *Case) {
 }
 
 type SysIn struct {
-	Start int64 `json:"start"` // unix seconds at which the alert is submitted
+	Start int64 `json:"start"` // unix seconds at which the first alert is submitted
 	GW    int64 `json:"group_wait_s"`
 	GI    int64 `json:"group_interval_s"`
-	K     int   `json:"flushes"`
+	K     int   `json:"flushes"`           // flushes observed per group
+	D     int64 `json:"second_group_delay_s"` // > 0: a second alert (second group of the same route) is submitted D s later
+}
+
+type sysEvent struct {
+	at  int64 // expected flush (tick) instant
+	gid int
+}
+
+func (in *SysIn) groups() int {
+	if in.D > 0 {
+		return 2
+	}
+	return 1
+}
+
+// events: group g is created at Start+g*D, flushes first after group_wait and then every group_interval
+func (in *SysIn) events() []sysEvent {
+	var evs []sysEvent
+	end := in.Start + int64(in.groups()-1)*in.D + in.GW + int64(in.K-1)*in.GI // the last group's K-th flush
+	for g := 0; g < in.groups(); g++ {
+		for at := in.Start + int64(g)*in.D + in.GW; at <= end; at += in.GI {
+			evs = append(evs, sysEvent{at, g})
+		}
+	}
+	sort.Slice(evs, func(i, j int) bool { return evs[i].at < evs[j].at })
+	return evs
+}
+
+// every flush is observed 1 s after its tick: ticks (and the second submission) must be >= 2 s apart
+func eventsSeparated(evs []sysEvent) bool {
+	for i := 1; i < len(evs); i++ {
+		if evs[i].at-evs[i-1].at < 2 {
+			return false
+		}
+	}
+	return true
 }
 
 type flushObs struct {
+	gid       int
 	now       time.Time
 	notified  bool
 	by        []string
 	isMuted   bool
 	haveGroup bool
 }
+
+var sysAlertNames = []string{"A", "B"}
 
 func (rn *runner) sys(c *Case) {
 	var obs []flushObs
@@ -267,8 +325,16 @@ func (rn *runner) sys(c *Case) {
 		rn.run.Violate("valid-spec-rejected", "config.Load rejected a well-formed configuration with time intervals: "+errClass(err), c)
 		return
 	}
+	in := c.Sys
+	evs := in.events()
 	synctest.Test(rn.t, func(t *testing.T) {
-		time.Sleep(time.Unix(c.Sys.Start, 0).Sub(time.Now()))
+		sleepUntil := func(u int64) {
+			if d := time.Unix(u, 0).Sub(time.Now()); d > 0 {
+				time.Sleep(d)
+			}
+		}
+		sleepUntil(in.Start)
+		// ONE instance (one Intervener, one pipeline, one dispatcher) for the whole sequence of flushes
 		s := sim.New(t, sim.Options{ConfigYAML: c.YAML,
 			Ints:      map[string][]sim.IntSpec{"team": {{Name: "webhook", SendResolved: true}}, "default": {{Name: "webhook", SendResolved: true}}},
 			Retention: time.Hour})
@@ -281,33 +347,46 @@ func (rn *runner) sys(c *Case) {
 		}
 		child := s.Conf.Route.Routes[0]
 		conf.mute, conf.active = child.MuteTimeIntervals, child.ActiveTimeIntervals
-		now := time.Now()
-		s.PutAlert(&alert.Alert{Alert: model.Alert{Labels: model.LabelSet{"alertname": "A", "team": "x"},
-			StartsAt: now, EndsAt: now.Add(time.Duration(c.Sys.GI*int64(c.Sys.K+4))*time.Second + 240*time.Hour)}, UpdatedAt: now})
+		put := func(g int) {
+			now := time.Now()
+			s.PutAlert(&alert.Alert{Alert: model.Alert{Labels: model.LabelSet{"alertname": model.LabelValue(sysAlertNames[g]), "team": "x"},
+				StartsAt: now, EndsAt: now.Add(time.Duration(in.GI*int64(in.K+4))*time.Second + 240*time.Hour)}, UpdatedAt: now})
+		}
+		put(0)
+		putB := in.groups() == 2
 		seen := 0
-		for k := 0; k < c.Sys.K; k++ {
-			if k == 0 {
-				time.Sleep(time.Duration(c.Sys.GW)*time.Second + time.Second)
-			} else {
-				time.Sleep(time.Duration(c.Sys.GI) * time.Second)
+		for _, ev := range evs {
+			if putB && in.Start+in.D <= ev.at {
+				sleepUntil(in.Start + in.D)
+				put(1)
+				putB = false
 			}
+			sleepUntil(ev.at + 1)
 			synctest.Wait()
 			recs := s.Recs()
 			var fo *flushObs
 			for _, rc := range recs[seen:] {
+				gid := 0
+				if strings.Contains(rc.GKey, `alertname="B"`) {
+					gid = 1
+				}
 				switch {
 				case rc.Kind == "flush" && rc.Recv == "team":
 					if fo != nil {
-						fail = "two flushes of the group within one group_interval"
+						fail = "two flushes within one observation step"
 					}
-					fo = &flushObs{now: time.Unix(0, rc.Tau)}
-				case rc.Kind == "notify" && rc.Recv == "team" && fo != nil:
+					fo = &flushObs{gid: gid, now: time.Unix(0, rc.Tau)}
+				case rc.Kind == "notify" && rc.Recv == "team" && fo != nil && gid == fo.gid:
 					fo.notified = true
 				}
 			}
 			seen = len(recs)
 			if fo == nil {
-				fail = fmt.Sprintf("no flush observed in step %d", k)
+				fail = fmt.Sprintf("no flush observed at expected tick %d", ev.at)
+				return
+			}
+			if fo.gid != ev.gid {
+				fail = fmt.Sprintf("flush of group %d observed where group %d was expected", fo.gid, ev.gid)
 				return
 			}
 			groups, _, err := s.Disp.Groups(context.Background(), func(*dispatch.Route) bool { return true },
@@ -317,7 +396,7 @@ func (rn *runner) sys(c *Case) {
 				return
 			}
 			for _, g := range groups {
-				if g.Receiver == "team" {
+				if g.Receiver == "team" && string(g.Labels["alertname"]) == sysAlertNames[fo.gid] {
 					fo.by, fo.isMuted = s.Marker.Muted(g.RouteID, g.GroupKey) // exactly what api/v2 getAlertGroupsHandler does
 					fo.haveGroup = true
 				}
@@ -326,7 +405,7 @@ func (rn *runner) sys(c *Case) {
 		}
 	})
 	if fail != "" {
-		rn.t.Fatalf("sys case could not be observed: %s\n%s", fail, c.YAML)
+		rn.t.Fatalf("sys case could not be observed: %s %+v\n%s", fail, *c.Sys, c.YAML)
 	}
 	m := map[string][]tiT{}
 	for _, t := range conf.tis {
@@ -338,7 +417,7 @@ func (rn *runner) sys(c *Case) {
 		if !f.haveGroup {
 			rn.run.Violate("group-missing-from-api", "the alert's group is not listed by dispatcher.Groups", c)
 		}
-		flushes = append(flushes, vh.App("mkFlush", vh.Z(f.now.Unix()), coqTzTableTI(conf.tis, f.now.Unix()),
+		flushes = append(flushes, vh.App("mkFlush", vh.Nat(f.gid), vh.Z(f.now.Unix()), coqTzTableTI(conf.tis, f.now.Unix()),
 			vh.Bool(f.notified), vh.ListOf(f.by, vh.Str), vh.Bool(f.isMuted)))
 		if f.notified {
 			nPass++
@@ -346,8 +425,13 @@ func (rn *runner) sys(c *Case) {
 			nBlock++
 		}
 		rn.run.Count("sys_flushes", fmt.Sprintf("notified:%v muted-in-api:%v", f.notified, f.isMuted))
+		if i > 0 {
+			if gap := f.now.Unix() - obs[i-1].now.Unix(); gap < 60 {
+				rn.run.Count("sys_flushes", "less-than-60s-after-the-previous-evaluation")
+			}
+		}
 		// direct oracle: the gating statement on the whole instance
-		want := time.Unix(c.Sys.Start+c.Sys.GW+int64(i)*c.Sys.GI, 0)
+		want := time.Unix(evs[i].at, 0)
 		if !f.now.Equal(want) {
 			rn.run.Violate("flush-instant-not-the-tick", fmt.Sprintf("flush %d carried now=%s, the tick was at %s", i, f.now.UTC(), want.UTC()), c)
 		}
@@ -360,7 +444,7 @@ func (rn *runner) sys(c *Case) {
 			if !blockedActive && !blockedMute {
 				key = "gating-dropped-while-not-muted"
 			}
-			rn.run.Violate(key, fmt.Sprintf("sys flush %d at %s: notified=%v; mute intervals containing it=%v; active=%v containing=%v", i, f.now.UTC(), f.notified, mutedBy, conf.active, activeBy), c)
+			rn.run.Violate(key, fmt.Sprintf("sys flush %d (group %d) at %s: notified=%v; mute intervals containing it=%v; active=%v containing=%v", i, f.gid, f.now.UTC(), f.notified, mutedBy, conf.active, activeBy), c)
 			continue
 		}
 		var wantBy []string
@@ -371,7 +455,7 @@ func (rn *runner) sys(c *Case) {
 			wantBy = mutedBy
 		}
 		if fmt.Sprint(asSet(f.by)) != fmt.Sprint(wantBy) || f.isMuted != (len(wantBy) > 0) {
-			rn.run.Violate("marker-names-wrong", fmt.Sprintf("sys flush %d at %s: API mutedBy=%v/%v, expected %v", i, f.now.UTC(), f.by, f.isMuted, wantBy), c)
+			rn.run.Violate("marker-names-wrong", fmt.Sprintf("sys flush %d (group %d) at %s: API mutedBy=%v/%v, expected %v", i, f.gid, f.now.UTC(), f.by, f.isMuted, wantBy), c)
 		}
 	}
 	var ivs []string
@@ -381,5 +465,5 @@ func (rn *runner) sys(c *Case) {
 	term := vh.App("CSys", vh.List(ivs), vh.ListOf(conf.mute, vh.Str), vh.ListOf(conf.active, vh.Str),
 		"[\n  "+strings.Join(flushes, ";\n  ")+"]")
 	rn.run.Add(term, c, len(conf.mute)+len(conf.active) > 0 && nPass > 0 && nBlock > 0)
-	rn.run.Count("sys_cases", fmt.Sprintf("both-outcomes:%v", nPass > 0 && nBlock > 0))
+	rn.run.Count("sys_cases", fmt.Sprintf("groups:%d gi:%ds both-outcomes:%v", in.groups(), in.GI, nPass > 0 && nBlock > 0))
 }
